@@ -3,3 +3,4 @@ open Cherab.Props.C15Table
 #print axioms table_wf
 #print axioms table_broadcast_wf
 #print axioms table_special_wf
+#print axioms classes_accept_slices
